@@ -55,6 +55,7 @@ ASSUMPTIONS = [
     "an encrypted track requested without any DRM on the /dash route is refused (404) before an init segment is produced; such requests are counted, not judged",
     "the order of the appended pssh boxes is not part of the property (the oracle compares them per system); the model predicts the code's order (ClearKey, PlayReady)",
     "every key id of the track is present in the key table",
+    "a PlayReady pssh for a track with one key id may omit the key-id list (version 0); with two or more key ids it must be version 1 and list exactly them; a ClearKey pssh always lists them",
 ]
 
 CONTAINERS = ["moov", "mvex"]
@@ -270,11 +271,17 @@ def oracle_init(env, c, m=None, resp=None) -> list[dict]:
         track_kids = [k for k in m["kids"]]
         for p in got:
             if p.system_id == orc.CLEARKEY_PSSH_SYSTEM_ID:
-                if sorted(p.kids) != sorted(track_kids) or p.data:
+                if p.version == 0 or sorted(p.kids) != sorted(track_kids) or p.data:
                     fails.append({"what": f"ClearKey pssh lists {[k.hex() for k in p.kids]} (data {len(p.data)} bytes), "
                                           f"track key ids are {[k.hex() for k in track_kids]}"})
             elif p.system_id == orc.PLAYREADY_SYSTEM_ID:
-                if p.kids and sorted(p.kids) != sorted(track_kids):
+                # the box must bear the key ids of the track: a track with several key ids needs a
+                # version-1 box listing exactly them; for a single key id the list may be omitted
+                # (version 0, the payload names it) or name exactly that id
+                if len(track_kids) >= 2 and (p.version == 0 or sorted(p.kids) != sorted(track_kids)):
+                    fails.append({"what": f"PlayReady pssh is version {p.version} listing {[k.hex() for k in p.kids]}, "
+                                          f"the track has {len(track_kids)} key ids {[k.hex() for k in track_kids]}"})
+                elif len(track_kids) < 2 and p.kids and sorted(p.kids) != sorted(track_kids):
                     fails.append({"what": f"PlayReady pssh lists {[k.hex() for k in p.kids]}, track key ids are {[k.hex() for k in track_kids]}"})
                 try:
                     recs = orc.parse_pro(p.data)
@@ -346,6 +353,8 @@ REGRESSION = [
     {"kind": "init", "route": "mps", "stream": "bbb", "name": "bbb_a1_enc", "mode": "live", "drm": "marlin", "version": None},
     {"kind": "init", "route": "dash", "stream": "mk", "name": "mk_v6_enc", "mode": "vod", "drm": "all", "version": "3.0"},
     {"kind": "init", "route": "dash", "stream": "bbb", "name": "bbb_v6_enc", "mode": "vod", "drm": "playready-cenc,clearkey", "version": None},
+    {"kind": "init", "route": "dash", "stream": "mk", "name": "mk_a1_enc", "mode": "vod", "drm": "playready", "version": None},
+    {"kind": "init", "route": "dash", "stream": "m3", "name": "m3_v6_enc", "mode": "live", "drm": "all", "version": None},
     {"kind": "init", "route": "mps", "stream": "bbb", "name": "bbb_a1_enc", "mode": "live", "drm": "marlin-cenc,playready,clearkey", "version": None},
 ]
 
@@ -406,59 +415,8 @@ def evaluate(env, cases, ch: Channel):
 
 # ---------------------------------------------------------------- history (request sequences)
 
-def canon_value(v, depth=0):
-    """order-free, address-free rendering of a module-level constant"""
-    import enum
-    if depth > 6:
-        return "…"
-    if isinstance(v, (set, frozenset)):
-        return "{" + ",".join(sorted(canon_value(x, depth + 1) for x in v)) + "}"
-    if isinstance(v, dict):
-        return "{" + ",".join(sorted(f"{canon_value(k, depth + 1)}:{canon_value(x, depth + 1)}" for k, x in v.items())) + "}"
-    if isinstance(v, (list, tuple)):
-        return "[" + ",".join(canon_value(x, depth + 1) for x in v) + "]"
-    if isinstance(v, enum.Enum):
-        return f"{type(v).__name__}.{v.name}"
-    if isinstance(v, (str, bytes, int, float, bool, type(None))):
-        return repr(v)
-    if callable(v):
-        return f"<callable {getattr(v, '__qualname__', type(v).__name__)}>"
-    if type(v).__name__ == "DashOption":
-        import dataclasses
-        if dataclasses.is_dataclass(v):
-            items = [(f.name, getattr(v, f.name, None)) for f in dataclasses.fields(v)]
-        elif hasattr(v, "__dict__"):
-            items = sorted(vars(v).items())
-        elif hasattr(v, "_asdict"):
-            items = sorted(v._asdict().items())
-        else:
-            items = [(k, getattr(v, k, None)) for k in getattr(type(v), "__slots__", ())]
-        return "DashOption(" + ",".join(f"{k}={canon_value(x, depth + 1)}" for k, x in items) + ")"
-    return f"<{type(v).__name__}>"
-
-
-CONST_MODULE_PREFIXES = ("dashlive.server.options", "dashlive.drm")
-
-
-def snapshot_constants() -> dict[str, str]:
-    """every module-level constant (UPPER_CASE name, or a DashOption instance) of the option
-    layer and the DRM package: shared defaults that no request may change"""
-    import sys
-    out = {}
-    for name, mod in list(sys.modules.items()):
-        if mod is None or not name.startswith(CONST_MODULE_PREFIXES):
-            continue
-        for attr, val in list(vars(mod).items()):
-            if attr.startswith("_") or isinstance(val, type(sys)) or isinstance(val, type):
-                continue
-            if attr.isupper() or type(val).__name__ == "DashOption":
-                out[f"{name}.{attr}"] = canon_value(val)
-        for cname, cls in list(vars(mod).items()):
-            if isinstance(cls, type) and cls.__module__ == name:
-                for attr, val in list(vars(cls).items()):
-                    if attr.isupper() and not callable(val):
-                        out[f"{name}.{cname}.{attr}"] = canon_value(val)
-    return out
+canon_value = lib.canon_value
+snapshot_constants = lib.snapshot_constants
 
 
 HIST_DRMS = ["playready", "clearkey", "marlin", "all", "playready,clearkey", "clearkey,marlin,playready",
@@ -469,7 +427,8 @@ HIST_DRMS = ["playready", "clearkey", "marlin", "all", "playready,clearkey", "cl
 def history_probes(env) -> list[dict]:
     """init-segment requests re-issued after every step of a sequence"""
     out = []
-    for name, stream in (("bbb_v6_enc", "bbb"), ("bbb_a1_enc", "bbb"), ("mk_v6_enc", "mk"), ("va_a1_enc", "va")):
+    for name, stream in (("bbb_v6_enc", "bbb"), ("bbb_a1_enc", "bbb"), ("mk_v6_enc", "mk"), ("va_a1_enc", "va"),
+                         ("m3_a1_enc", "m3")):
         for drm in ("playready", "clearkey", "all", "clearkey,playready", "playready-moov", "all-moov", "marlin"):
             for route, mode in (("dash", "vod"), ("dash", "live"), ("mps", "live")):
                 if route == "mps" and stream not in {d for _, d in env.mps_periods}:
